@@ -26,6 +26,8 @@ def key_of(row):
     """Key of a rejected line (one report and one known_findings entry per key). Signing lines are keyed by protocol, variant,
     group and the stage at which the run departs from an accepted one - not by quorum / policy / message, which vary with the seed."""
     r = row
+    if r.get("a") == "otdev":
+        return "otdev:%s:%s:msg%s:%s:%s:%s" % (r["proto"], r["group"], r["msg"], r["leaf"], r["op"], "completed" if r["completed"] else ("panic" if r.get("panic") else "other"))
     if r.get("a") == "blsdev":
         return "blsdev:%s:%s:nComp%s:%s" % (r["variant"], r["kind"], ">1" if r["nComp"] > 1 else "=1", "accepted" if r["ok"] else ("panic" if r["panic"] else "blame"))
     if r.get("a") != "sign":
@@ -343,6 +345,37 @@ def run_blsdev(chk):
         "Boldyreva BLS deviation matrix (ProdProto, production curve BLS12-381): one deviating cosigner, alterations keep every point a valid "
         "subgroup element so that only the pairing checks can catch them; the quick tier takes two deviators per quorum and the replicated CNF "
         "policy cnf3 for every variant plus half of {th2of3, cnf4, gate3} by seed"]
+    return res
+
+
+# ------------------------------------------------------------------------------------------------------------------- altered OT / VOLE messages (C09)
+
+def run_otdev(chk):
+    """VSOT, SoftSpoken and rvole/softspoken on secp256k1 (thorough: and P-256): every (wire message, CBOR leaf class, first / last
+    position, flip / swap) alteration between two honest endpoints must end in an abort."""
+    binary = _build()["plain"]
+    stats = {"lines": 0, "by_proto": {}, "by_leaf": {}, "aborted_at": {}}
+
+    def on_rows(tag, body):
+        for r in body:
+            stats["lines"] += 1
+            _bump(stats["by_proto"], r["proto"] + ":" + r["group"])
+            _bump(stats["by_leaf"], "%s:msg%d:%s:%s" % (r["proto"], r["msg"], r["leaf"], r["op"]))
+            _bump(stats["aborted_at"], "%s:msg%d->%s" % (r["proto"], r["msg"], r["failedAt"]))
+        if body:
+            e = body[len(body) // 2]
+            chk.sample({"prod_otdev": e["k"], "completed": e["completed"], "failedAt": e["failedAt"], "err": e["err"][:120]}, cap=8)
+    tasks = [("rv:otdev", _job(chk, "otdev", binary, False, ["-mode", "otdev"], stats, on_rows, 400, 3000))]
+    res = vlib.parallel(tasks, max_workers=2)
+    if stats["lines"] < 40:
+        raise vlib.MachineryError("OT / VOLE deviation driver produced only %d lines" % stats["lines"])
+    _finish_part(chk, "prod_otdev", stats, res, stats["lines"],
+                 "prod otdev: one case = one run of VSOT / SoftSpoken / rvole-softspoken with one altered wire message")
+    chk.assumptions += [
+        "OT / VOLE deviations on production curves (ProdProto): the alteration happens in flight between two HONEST endpoints, so whoever notices "
+        "first aborts (for a message whose sender also checks a later reply that can be the sender itself); 'the other side aborts' is decided as "
+        "'the run does not complete, nothing panics, the first abort is at or after the altered message'. The matrix is read from the code's own "
+        "messages: every byte-string leaf class (last byte changed) and every array (first and last element exchanged), first and last position"]
     return res
 
 
